@@ -35,15 +35,14 @@ Proof. intros; unfold StackModel.zlen; lia. Qed.
 Lemma idx_nth : forall (l : list T) (i : Z) d, 0 <= i < zlen l -> idx l i = Some (nth (Z.to_nat i) l d).
 Proof.
   intros l i d H. unfold StackModel.idx, StackModel.zlen in *.
-  destruct (i <? 0) eqn:E; [lia|].
+  destruct (i <? 0) eqn:E; [lia|]. destruct (Z.of_nat (length l) <=? i) eqn:E2; [lia|]. cbn [orb].
   apply nth_error_nth'. lia.
 Qed.
 
 Lemma idx_out : forall (l : list T) (i : Z), zlen l <= i -> idx l i = None.
 Proof.
   intros l i H. unfold StackModel.idx, StackModel.zlen in *.
-  destruct (i <? 0) eqn:E; [reflexivity|].
-  apply nth_error_None. lia.
+  destruct (i <? 0) eqn:E; [reflexivity|]. destruct (Z.of_nat (length l) <=? i) eqn:E2; [reflexivity|]. lia.
 Qed.
 
 (* l[len-1-n] is the n-th element from the top *)
@@ -130,14 +129,16 @@ Qed.
 Lemma peek_ok : forall (l : list T) (n : Z),
   peek T zero n l =
     if n <? 0 then SPanic
-    else if (Z.to_nat n <? length l)%nat then SOk (nth (Z.to_nat n) (rev l) zero, true)
+    else if n <? Z.of_nat (length l) then SOk (nth (Z.to_nat n) (rev l) zero, true)
     else SOk (zero, false).
 Proof.
   intros. unfold peek, peek_none, peek_idx, peek_ret_none, peek_ret_ok.
   destruct (n <? 0) eqn:En.
   - replace (n >=? zlen l) with false by (pose proof (zlen_nonneg l); bool_lia).
     rewrite idx_out by lia. reflexivity.
-  - destruct (Z.to_nat n <? length l)%nat eqn:El.
+  - replace (n <? Z.of_nat (length l)) with (Z.to_nat n <? length l)%nat
+      by (destruct (Nat.ltb_spec (Z.to_nat n) (length l)); bool_lia).
+    destruct (Z.to_nat n <? length l)%nat eqn:El.
     + apply Nat.ltb_lt in El.
       replace (n >=? zlen l) with false by (unfold StackModel.zlen; bool_lia).
       replace n with (Z.of_nat (Z.to_nat n)) at 1 by lia.
@@ -161,11 +162,11 @@ Proof.
       pose proof (idx_rev (l' ++ [x]) 0 ltac:(rewrite app_length; cbn; lia)) as H.
       rewrite Z.sub_0_r in H. rewrite H. cbn [lift fst snd]. rewrite rev_app_distr. reflexivity.
   - rewrite peek_ok. rewrite rev_length. destruct (n <? 0); [reflexivity|].
-    destruct (Z.to_nat n <? length l)%nat; reflexivity.
+    destruct (n <? Z.of_nat (length l)); reflexivity.
   - unfold pop, pop_peek_arg, pop_zero_idx, pop_hi. rewrite peek_ok. cbn [Z.ltb Z.compare Z.to_nat].
     destruct l as [|x l'] using rev_ind.
     + reflexivity.
-    + clear IHl'. rewrite app_length. cbn [length]. replace (0 <? length l' + 1)%nat with true by (symmetry; apply Nat.ltb_lt; lia).
+    + clear IHl'. rewrite app_length. cbn [length]. replace (0 <? Z.of_nat (length l' + 1)) with true by bool_lia.
       rewrite rev_app_distr. cbn [rev app nth].
       replace (zlen (l' ++ [x]) - 1) with (Z.of_nat (length l')) by (unfold StackModel.zlen; rewrite app_length; cbn; lia).
       rewrite upd_ok by (rewrite app_length; cbn; lia).
@@ -198,7 +199,7 @@ Lemma sastep_out : forall (a : list T) (o : sop T),
   (snd (sastep T zero a o) = TPanic T -> exists n, o = SPeek T n /\ n < 0).
 Proof.
   intros a o. destruct o; cbn [sastep snd]; try (split; [discriminate|discriminate]).
-  - destruct (n <? 0) eqn:E; [|destruct (Z.to_nat n <? length a)%nat]; cbn [snd];
+  - destruct (n <? 0) eqn:E; [|destruct (n <? Z.of_nat (length a))]; cbn [snd];
       (split; [discriminate|]); intros H; try discriminate. exists n. split; [reflexivity|lia].
   - destruct a; cbn [snd]; split; discriminate.
 Qed.
